@@ -57,13 +57,18 @@ func cmdReplay(args []string) int {
 	os.MkdirAll(work, 0o755)
 	defer os.RemoveAll(work)
 	nres := fn.Signature.Results().Len()
-	body := info.Replay.GoCall + "\n\t\treturn nil"
+	// the stored call may be preceded by statements that build its arguments ("p1 := &T{...}; f(p1)")
+	pre, call := "", info.Replay.GoCall
+	if i := strings.LastIndex(call, "; "); i >= 0 {
+		pre, call = strings.ReplaceAll(call[:i], "; ", "\n\t\t")+"\n\t\t", call[i+2:]
+	}
+	body := pre + call + "\n\t\treturn nil"
 	if nres > 0 {
 		var rs []string
 		for i := 0; i < nres; i++ {
 			rs = append(rs, fmt.Sprintf("r%d", i))
 		}
-		body = strings.Join(rs, ", ") + " := " + info.Replay.GoCall + "\n\t\treturn []any{" + strings.Join(rs, ", ") + "}"
+		body = pre + strings.Join(rs, ", ") + " := " + call + "\n\t\treturn []any{" + strings.Join(rs, ", ") + "}"
 	}
 	outs, _, err := prog.runHarnessMulti(fn, []string{body}, info.Replay.Decls, info.Replay.Imports, work, nil)
 	if err != nil {
